@@ -3,8 +3,11 @@ module verif/harness
 go 1.26.2
 
 require (
+	github.com/golang/snappy v1.0.0
 	github.com/hydraide/hydraide v0.0.0
 	github.com/hydraide/hydraide/sdk/go/hydraidego/v3 v3.0.0
+	github.com/klauspost/compress v1.18.5
+	github.com/pierrec/lz4 v2.6.1+incompatible
 )
 
 replace github.com/hydraide/hydraide => /repo
